@@ -48,7 +48,8 @@ def eer_event(ev, s, o, h, g):
         t, ee = float(t), float(ee)
         coarse = g.name.startswith("clustered")     # not an affine image: the value is no small rational
         fr = Fraction(ee).limit_denominator(1000000 if coarse else 5000)
-        e["e"] = [fr.numerator, fr.denominator] if abs(float(fr) - ee) <= 1e-8 else [0, 0]
+        # (the best rational with denominator <= 10^6 is within 5e-7 of any number)
+        e["e"] = [fr.numerator, fr.denominator] if abs(float(fr) - ee) <= (6e-7 if coarse else 1e-8) else [0, 0]
         e["e9"] = int(round(ee * 1e9))
         e["e_is_zero"] = bool(ee == 0.0)
         proj = sd.ThrProjector(g, sorted(set(o["pos"]) | set(o["neg"])))
